@@ -25,12 +25,13 @@ META = dict(
 
 
 def run(c):
-    r, cov = oc.design_check(c)
+    design = oc.Background(oc.design_check, c)         # exhaustive design check runs while the real code is driven
     progs = oc.sim_programs(c, num=c.pick(4, 12), depth=c.pick(50, 80))
     binp = c.build("orderedstore")
     jobs = oc.c18_jobs(c, progs)
     traces, stats = oc.run_driver(c, binp, jobs, "c18")
     rej, seen, seen2 = oc.validate_and_report(c, traces)
+    r, cov = design.result()
     searches = sum(1 for _, evs in traces for e in evs if e["ev"] in ("Find", "FindInDescendingOrder", "FindWithID"))
     ranges = sum(1 for _, evs in traces for e in evs if e["ev"] in ("RangeAsc", "RangeDesc"))
     steps = sum(1 for _, evs in traces for e in evs if e["ev"] in ("Next", "Previous"))
